@@ -47,6 +47,8 @@ pub fn run(name: &str, seed: u64, rest: &[String]) -> String {
         "wmo_roundtrip" => wmo_roundtrip(seed),
         "adpcm" => adpcm_oracle(seed),
         "dbc_paths" => dbc_paths(seed),
+        "extract_paths" => extract_paths(seed),
+        "cli_extract" => cli_extract(rest.first().map(|s| s.as_str()).unwrap_or("")),
         "wmo_known" => wmo_known(rest.first().map(|s| s.as_str()).unwrap_or("")),
         _ => { let _ = rest; format!("{{\"oracle\":{},\"error\":\"unknown oracle\"}}", js(name)) }
     }
@@ -1694,4 +1696,123 @@ fn dbc_paths(seed: u64) -> String {
         }
     }
     none("dbc_paths", tried)
+}
+
+
+// ---- C11: extraction containment ------------------------------------------------------------
+fn hostile_names(rng: &mut Rng) -> Vec<String> {
+    let atoms = ["..", ".", "", "a", "dir", "file.txt", "C:", "c:x", "...", ".. ", "..a", "a..", "\u{00e9}t\u{00e9}", "x:y:z", "~", "-"];
+    let seps = ["\\", "/", "\\\\", "//", "\\/"];
+    let mut v: Vec<String> = vec![
+        "..\\..\\escape.txt".into(), "../../escape.txt".into(), "/abs/escape.txt".into(), "\\abs\\escape.txt".into(),
+        "C:\\Windows\\x.txt".into(), "dir\\..\\..\\..\\x".into(), "a/./b/../../../c".into(), "..".into(), ".".into(), "".into(),
+        "a\\b\\c.txt".into(), "\\\\server\\share\\x".into(), "a\\..".into(), "..\\".into(), "/".into(), "\\".into(), "a:b".into(),
+    ];
+    for _ in 0..400 {
+        let n = 1 + (rng.next() % 6) as usize;
+        let mut s = String::new();
+        if rng.next() % 4 == 0 { s.push_str(seps[(rng.next() % seps.len() as u64) as usize]); }
+        for i in 0..n {
+            if i > 0 { s.push_str(seps[(rng.next() % seps.len() as u64) as usize]); }
+            s.push_str(atoms[(rng.next() % atoms.len() as u64) as usize]);
+        }
+        if rng.next() % 5 == 0 { s.push_str(seps[(rng.next() % seps.len() as u64) as usize]); }
+        v.push(s);
+    }
+    v
+}
+
+/// the library's sanitiser against std::path's own component parser (also exercises the assumed contract
+/// "joining a relative path of normal components stays beneath the base")
+fn extract_paths(seed: u64) -> String {
+    use std::path::{Component, Path};
+    let mut rng = Rng(seed ^ 0xC11);
+    let names = hostile_names(&mut rng);
+    let base = Path::new("/base/out");
+    for n in &names {
+        let out = wow_mpq::path::sanitize_extraction_path(n);
+        let p = Path::new(&out);
+        if !p.components().all(|c| matches!(c, Component::Normal(_))) {
+            return fail("extract_paths", format!("entry name {:?}", n), format!("sanitised to {:?}, which has a non-normal component", out), "only normal components".into());
+        }
+        if out.contains(':') || out.contains('\\') {
+            return fail("extract_paths", format!("entry name {:?}", n), format!("sanitised to {:?}", out), "no ':' and no foreign separator".into());
+        }
+        let joined = base.join(&out);
+        if !joined.starts_with(base) || joined.components().any(|c| matches!(c, Component::ParentDir)) {
+            return fail("extract_paths", format!("entry name {:?}", n), format!("joins to {:?}", joined), "a path beneath /base/out".into());
+        }
+    }
+    // benign names keep every component
+    for (n, want) in [("a\\b\\c.txt", "a/b/c.txt"), ("Interface/Icons\\x.blp", "Interface/Icons/x.blp"), ("file", "file"), ("..\\..\\etc\\passwd", "etc/passwd")] {
+        let out = wow_mpq::path::sanitize_extraction_path(n);
+        if cfg!(unix) && out != want {
+            return fail("extract_paths", format!("entry name {:?}", n), format!("{:?}", out), format!("{:?}", want));
+        }
+    }
+    none("extract_paths", names.len() + 4)
+}
+
+fn walk_files(dir: &std::path::Path, out: &mut Vec<std::path::PathBuf>) {
+    if let Ok(rd) = std::fs::read_dir(dir) {
+        for e in rd.flatten() {
+            let p = e.path();
+            if p.is_dir() { walk_files(&p, out); } else { out.push(p); }
+        }
+    }
+}
+
+/// end to end: the command-line tool of the tree under test extracting an archive with hostile names
+fn cli_extract(binary: &str) -> String {
+    use wow_mpq::{ArchiveBuilder, ListfileOption};
+    if binary.is_empty() || !std::path::Path::new(binary).exists() {
+        return format!("{{\"oracle\":\"cli_extract\",\"error\":\"no warcraft-rs binary at {}\"}}", binary);
+    }
+    let sandbox = tempfile::tempdir().unwrap();
+    let abs_target = format!("/tmp/wrv_c11_abs_{}.txt", std::process::id());
+    let _ = std::fs::remove_file(&abs_target);
+    let names: Vec<String> = vec![
+        "good\\inner.txt".into(), "..\\..\\escape_bs.txt".into(), "../../escape_fs.txt".into(), "deep\\..\\..\\..\\escape_mixed.txt".into(),
+        abs_target.clone(), "C:\\escape_drive.txt".into(), "..".into(),
+    ];
+    let mut tried = 0;
+    for (preserve, explicit, chain) in [(true, false, false), (true, true, false), (true, false, true), (true, true, true), (false, false, false), (false, true, true)] {
+        {
+            let base = sandbox.path().join(format!("s{}{}{}", preserve as u8, explicit as u8, chain as u8));
+            let outdir = base.join("l1").join("l2").join("out");
+            std::fs::create_dir_all(&outdir).unwrap();
+            let arch = base.join("hostile.mpq");
+            let mut b = ArchiveBuilder::new().listfile_option(ListfileOption::Generate);
+            for (i, n) in names.iter().enumerate() { b = b.add_file_data(format!("payload {}", i).into_bytes(), n); }
+            if let Err(e) = b.build(&arch) { return format!("{{\"oracle\":\"cli_extract\",\"error\":{:?}}}", e.to_string()); }
+            let mut cmd = std::process::Command::new(binary);
+            cmd.arg("mpq").arg("extract").arg(&arch).arg("--output").arg(&outdir).arg("--skip-errors");
+            if preserve { cmd.arg("--preserve-paths"); }
+            if chain {
+                let patch = base.join("patch.mpq");
+                let pb = ArchiveBuilder::new().listfile_option(ListfileOption::Generate).add_file_data(b"patched".to_vec(), "..\\..\\escape_patch.txt").add_file_data(b"p".to_vec(), "good\\inner.txt");
+                if let Err(e) = pb.build(&patch) { return format!("{{\"oracle\":\"cli_extract\",\"error\":{:?}}}", e.to_string()); }
+                cmd.arg("--patch").arg(&patch);
+            }
+            if explicit { cmd.arg("--"); for n in &names { cmd.arg(n); } cmd.arg("..\\..\\escape_patch.txt"); }
+            let res = cmd.output();
+            tried += 1;
+            let mut files = Vec::new();
+            walk_files(&base, &mut files);
+            let mut outside: Vec<String> = files.iter().filter(|f| !f.starts_with(&outdir) && **f != arch && !f.ends_with("patch.mpq")).map(|f| f.display().to_string()).collect();
+            if std::path::Path::new(&abs_target).exists() { outside.push(abs_target.clone()); let _ = std::fs::remove_file(&abs_target); }
+            if !outside.is_empty() {
+                return fail("cli_extract", format!("archive with entry names {:?}; warcraft-rs mpq extract --output <out>{}{}", names, if preserve { " --preserve-paths" } else { "" }, if explicit { " <names>" } else { "" }) + if chain { " --patch <patch.mpq>" } else { "" },
+                    format!("files created outside the output directory: {:?}", outside), "files only beneath the output directory".into());
+            }
+            if let Err(e) = res { return format!("{{\"oracle\":\"cli_extract\",\"error\":{:?}}}", e.to_string()); }
+            // not vacuous: the benign entry is extracted where it belongs
+            let want = if preserve { outdir.join("good").join("inner.txt") } else { outdir.join("inner.txt") };
+            if !want.exists() {
+                return fail("cli_extract", format!("archive with benign entry good\\inner.txt among hostile names; preserve={} explicit={} chain={}", preserve, explicit, chain),
+                    format!("{} was not created", want.display()), "the benign entry extracted beneath the output directory".into());
+            }
+        }
+    }
+    none("cli_extract", tried)
 }
